@@ -63,6 +63,25 @@ def call(sig: str, fn: Callable, *args, allowed: tuple = (), **kwargs):
         raise Violation(f"{sig}:raises:{type(e).__name__}", _short(e)) from e
 
 
+def scribble(x) -> None:
+    """overwrite a result the library handed out (a caller may do what it likes with it): later answers must not depend on it"""
+    import numpy as np
+
+    try:
+        if isinstance(x, np.ndarray):
+            if x.flags.writeable and x.size:
+                x[...] = np.array(1, dtype=x.dtype) if x.dtype == np.bool_ else (x * 0 + 101).astype(x.dtype)
+        elif isinstance(x, list):
+            x.clear()
+        elif isinstance(x, tuple):
+            for y in x:
+                scribble(y)
+        elif hasattr(x, "numpy") and hasattr(x, "fill_"):
+            x.fill_(113)
+    except (ValueError, TypeError, RuntimeError):
+        pass
+
+
 def _short(e: BaseException, n: int = 300) -> str:
     s = f"{type(e).__name__}: {e}"
     return s if len(s) <= n else s[:n] + "..."
